@@ -174,19 +174,23 @@ def hexDigits : Bytes → Nat → Nat
     | some v => hexDigits t (acc * 16 + v)
     | none => acc
 
+/-- optional sign of `strtoul` -/
+def stripSign : Bytes → Bool × Bytes
+  | 45 :: t => (true, t)
+  | 43 :: t => (false, t)
+  | s => (false, s)
+
+/-- optional `0x`/`0X` prefix of `strtoul(., 16)` (only when a hex digit follows) -/
+def strip0x : Bytes → Bytes
+  | 48 :: x :: h :: t => if (x == 120 || x == 88) && (hexVal h).isSome then h :: t else 48 :: x :: h :: t
+  | s => s
+
 /-- `strtoul(s, NULL, 16)` of glibc on a C string: blanks, sign, optional `0x`, digits, saturation at 2^64-1 -/
 def strtoul16 (s : Bytes) : Nat :=
-  let s := s.dropWhile cIsSpace
-  let (neg, s) := match s with
-    | 45 :: t => (true, t)
-    | 43 :: t => (false, t)
-    | _ => (false, s)
-  let s := match s with
-    | 48 :: x :: h :: t => if (x == 120 || x == 88) && (hexVal h).isSome then h :: t else s
-    | _ => s
-  let v := hexDigits s 0
+  let r := stripSign (s.dropWhile cIsSpace)
+  let v := hexDigits (strip0x r.2) 0
   if v ≥ 2 ^ 64 then 2 ^ 64 - 1
-  else if neg then (2 ^ 64 - v) % 2 ^ 64 else v
+  else if r.1 then (2 ^ 64 - v) % 2 ^ 64 else v
 
 /-- `String::hexToInt()` assigned to an `int`: `(int)(unsigned)strtoul(str(), NULL, 16)` -/
 def hexToInt (s : Bytes) : Int := wrap 32 ((strtoul16 (cstr s) % 2 ^ 32 : Nat) : Int)
